@@ -21,7 +21,7 @@ def parse(text):
     from clingo.ast import parse_string
 
     stms = []
-    parse_string(text, stms.append)
+    parse_string(text, stms.append, logger=lambda c, m: None)
     return stms
 
 
